@@ -153,3 +153,82 @@ func ShrinkLen(l int, fails func(int) bool) int {
 	}
 	return l
 }
+
+// CaseKinds names the case transformations a third party may apply to a query name in transit (DNS
+// names are case-insensitive; recursive resolvers with 0x20 randomisation do exactly this).
+var CaseKinds = []string{"as-sent", "upper", "lower", "0x20", "domain-only", "data-only"}
+
+// Recase rewrites, in place, the letter case of the labels of a name whose last nDomain labels are
+// the base domain: kind 0 nothing, 1 all upper, 2 all lower, 3 random per letter, 4 only the base
+// domain (random per letter; all upper for even seeds), 5 only the labels in front of it (likewise).
+// The random choices are a pure function of seed.
+func Recase(labels [][]byte, nDomain, kind int, seed uint64) {
+	total := 0
+	for _, l := range labels {
+		total += len(l)
+	}
+	bits := Expand(seed|2, total)
+	pos := 0
+	for i, l := range labels {
+		isDomain := i >= len(labels)-nDomain
+		for j, b := range l {
+			r := bits[pos]&1 == 1
+			pos++
+			if !('a' <= b && b <= 'z' || 'A' <= b && b <= 'Z') {
+				continue
+			}
+			up := b &^ 0x20
+			lo := b | 0x20
+			pick := func(random bool) byte {
+				if !random || r {
+					return up
+				}
+				return lo
+			}
+			switch kind {
+			case 1:
+				l[j] = up
+			case 2:
+				l[j] = lo
+			case 3:
+				l[j] = pick(true)
+			case 4:
+				if isDomain {
+					l[j] = pick(seed%2 == 1)
+				}
+			case 5:
+				if !isDomain {
+					l[j] = pick(seed%2 == 1)
+				}
+			}
+		}
+	}
+}
+
+// RecaseQuestion applies Recase to the (uncompressed) first question name of a DNS message in wire
+// format, in place. It returns false and changes nothing if the bytes are not such a message.
+func RecaseQuestion(msg []byte, nDomain, kind int, seed uint64) bool {
+	if len(msg) < 13 || msg[4] != 0 || msg[5] != 1 {
+		return false
+	}
+	var labels [][]byte
+	for p := 12; ; {
+		if p >= len(msg) {
+			return false
+		}
+		n := int(msg[p])
+		if n == 0 {
+			break
+		}
+		if n > 63 || p+1+n > len(msg) {
+			return false
+		}
+		labels = append(labels, msg[p+1:p+1+n])
+		p += 1 + n
+	}
+	if nDomain > len(labels) {
+		return false
+	}
+	Recase(labels, nDomain, kind, seed)
+	return true
+}
